@@ -20,6 +20,11 @@ theorem verdict :
 #print axioms refutes_iteratesMap
 #print axioms functional_nonoverlap_partial
 #print axioms refutes_dropped_field
+#print axioms resolves_to_last_registration
+#print axioms reregistration_ignored_witness
+#print axioms refutes_reregistration
+#print axioms Hv.Settings.registry_follows_history
+#print axioms Hv.Settings.entryFor_register
 #print axioms Hv.Settings.wf_register
 #print axioms Hv.Settings.lookupIn_filter
 #print axioms Hv.Name.load_canon
